@@ -6,6 +6,10 @@
                                R the implementation's own decompose() result
      sem_c02_spec_symbols      the strict variant (printed constant names at face value: finding F8c)
      sem_c02_spec_renaming     the strict variant without the class test F9 (replay oracle of finding F9b)
+     sem_c02_spec_backward_assumptions
+                               the variant that reads `assumption(backward)` of a specification as a premise of the
+                               backward direction - what the warning text suggests; anthem drops it from BOTH
+                               directions (replay oracle of finding F19: spurious countermodels, incompleteness only)
      mk_spec_task              (harness only) texts -> wire form of a task
      sem_c02_spec_class        the guard of sem_c02_spec alone: (class "<name>")
 
@@ -204,7 +208,7 @@ let classify ?(excuse_f9 = true) ~(strict_symbols : bool) (task : Sexp.t) (out :
        end)
   | _ -> Error "not-accepted"
 
-let sem_c02_spec ?(excuse_f9 = true) ~(strict_symbols : bool) (e : Sexp.t) : Sexp.t =
+let sem_c02_spec ?(excuse_f9 = true) ?(backward_assumptions = false) ~(strict_symbols : bool) (e : Sexp.t) : Sexp.t =
   match e with
   | L [ task; out ] ->
     (match classify ~excuse_f9 ~strict_symbols task out with
@@ -215,6 +219,9 @@ let sem_c02_spec ?(excuse_f9 = true) ~(strict_symbols : bool) (e : Sexp.t) : Sex
        let sel f = List.filter f spec' in
        let a_u = sel (fun a -> a.an_role = RAssumption && a.an_dir = DUniversal) in
        let a_f = sel (fun a -> a.an_role = RAssumption && a.an_dir = DForward) in
+       (* assumptions annotated backward: IGNORED by anthem in both directions (warning); only the strict
+          variant `sem_c02_spec_backward_assumptions` reads them as premises of the backward direction *)
+       let a_b = if backward_assumptions then sel (fun a -> a.an_role = RAssumption && a.an_dir = DBackward) else [] in
        let sp_f = sel (fun a -> a.an_role = RSpec && dir_fw a.an_dir) in
        let sp_b = sel (fun a -> a.an_role = RSpec && dir_bw a.an_dir) in
        begin begin
@@ -274,7 +281,7 @@ let sem_c02_spec ?(excuse_f9 = true) ~(strict_symbols : bool) (e : Sexp.t) : Sex
                       let holds_j = Ops_tasks_sem.make_holds w fi (side_j mi) in
                       let all l = List.for_all (fun (a : aformula_annot) -> holds_j a.an_formula) l in
                       let uga = List.for_all holds_j ug_assumptions in
-                      let au = all a_u and af = all a_f and spf = all sp_f in
+                      let au = all a_u and af = all a_f and spf = all sp_f and ab = all a_b in
                       let violated = List.find_opt (fun (a : aformula_annot) -> not (holds_j a.an_formula)) sp_b in
                       let mr = side_r mi in
                       let stable = Ops_compext.is_stable cands pr.ins prog' mr in
@@ -288,12 +295,13 @@ let sem_c02_spec ?(excuse_f9 = true) ~(strict_symbols : bool) (e : Sexp.t) : Sex
                                             L [ A "user-guide-assumptions"; of_boolv uga ];
                                             L [ A "specification-universal-assumptions"; of_boolv au ];
                                             L [ A "specification-forward-assumptions"; of_boolv af ];
+                                            L [ A "specification-backward-assumptions-read-as-premises"; (if backward_assumptions then of_boolv ab else A "ignored-as-anthem-does") ];
                                             L [ A "specification-forward-specs"; of_boolv spf ];
                                             L [ A "violated-backward-spec"; (match violated with Some a -> of_annot a | None -> L [ A "none" ]) ];
                                             L [ A "program-external-stable"; of_boolv stable ];
                                             L [ A "program-private-supported"; of_boolv supported ];
                                             L [ A "T-program-side"; Semlib.of_fpint mr ] ]) in
-                      let exp_b = bw && uga && au && stable && violated <> None in
+                      let exp_b = bw && uga && au && ab && stable && violated <> None in
                       if exp_b then incr hit_b;
                       let act_b = refuted holds "backward" in
                       if act_b <> exp_b then report "backward" act_b exp_b
@@ -323,5 +331,6 @@ let () =
   Ops.register "sem_c02_spec" (sem_c02_spec ~strict_symbols:false);
   Ops.register "sem_c02_spec_symbols" (sem_c02_spec ~strict_symbols:true);
   Ops.register "sem_c02_spec_renaming" (sem_c02_spec ~excuse_f9:false ~strict_symbols:false);
+  Ops.register "sem_c02_spec_backward_assumptions" (sem_c02_spec ~backward_assumptions:true ~strict_symbols:false);
   Ops.register "sem_c02_spec_class" sem_c02_spec_class
 let init () = ()
